@@ -30,6 +30,18 @@ Theorem C03_iter_from_eq : S_iter_from_eq.
 Proof. exact iter_from_eq. Qed.
 Print Assumptions C03_iter_from_eq.
 
+(** the same with the ring buffer as the code has it: [window + 1] slots indexed by
+    [node mod (window + 1)], pre-filled in ascending node order, a slot replaced per node *)
+Theorem C03_iter_from_ring_eq : S_iter_from_ring_eq.
+Proof. exact iter_from_ring_eq. Qed.
+Print Assumptions C03_iter_from_ring_eq.
+
+(** pulling the successor slices one by one from the sequential decoder (the ring slot of
+    the node is taken, cleared, refilled and put back) yields the graph *)
+Theorem C03_next_successors_eq : S_next_successors_eq.
+Proof. exact next_successors_eq. Qed.
+Print Assumptions C03_next_successors_eq.
+
 (** the sequential-only graph started at any node *)
 Theorem C03_seq_iter_from_eq : S_seq_iter_from_eq.
 Proof. exact seq_iter_from_eq. Qed.
